@@ -13,7 +13,7 @@ use simple_sds::serialize::{self, Serialize as SdsSerialize};
 
 use crate::content::Content;
 use crate::core::{catch, Outcome, Stats, Violation};
-use crate::payload::{build_bv, gen_payload, DynVal, Family, GenCfg, Leaf, Payload, Probe};
+use crate::payload::{build_bv, gen_large_payload, gen_payload, DynVal, Family, GenCfg, Leaf, Payload, Probe};
 use crate::rng::Rng;
 use crate::simfs::{FsPlan, FsSession};
 use crate::simio::{is_injected, Chunk, Kind, ReadFault, ReadPlan, SimReader, SimWriter, WriteFault, WritePlan, READ_KINDS, WRITE_KINDS};
@@ -58,10 +58,21 @@ impl RoundTrip {
         RoundTrip { payloads, w, r, split: rng.chance(1, 4), via_fs }
     }
 
+    /// One large structure (around 2^16 / 2^17 / 2^19 items) with coarse chunking, optionally followed by a small one.
+    pub fn generate_large(rng: &mut Rng, big: bool) -> RoundTrip {
+        let base = if big { *rng.pick(&[1usize << 16, 1 << 16, 1 << 17, 1 << 19]) } else { *rng.pick(&[1usize << 16, 1 << 16, 1 << 16, 1 << 17]) };
+        let words = match rng.below(6) { 0 => base - 1, 1 => base, 2 | 3 => base + 1, 4 => base + rng.range_usize(2, 5000), _ => 2 * base + 1 };
+        let mut payloads = vec![gen_large_payload(rng, words)];
+        if rng.bool() { payloads.push(Payload::plain(Leaf::U64(0x5E17_1E1A_0000_0001))); }
+        let coarse = |rng: &mut Rng| match rng.below(5) { 0 => Chunk::Unbounded, 1 => Chunk::Max(1 << 16), 2 => Chunk::Max(4096), 3 => Chunk::Align(1 << 16), _ => Chunk::Seq(vec![100_000, 4096, 1 << 20, 65_537, 13]) };
+        RoundTrip { payloads, w: WritePlan { chunk: coarse(rng), eintr: vec![], fault: None }, r: ReadPlan { chunk: coarse(rng), eintr: if rng.bool() { vec![3, 17] } else { vec![] }, fault: None }, split: false, via_fs: None }
+    }
+
     pub fn run(&self, prop: &str) -> Outcome {
         let mut out = Outcome::default();
         let vals = match build_all(prop, &self.payloads) { Ok(v) => v, Err(v) => return out.fail(v) };
         out.stats.evaluations = 1;
+        out.stats.probe_if(vals.iter().any(|v| v.size_in_elements() > (1 << 16)), "structure larger than 65536 elements");
         let v = |clause: &str, site: &str, msg: String| Violation::new(prop, clause, site, msg);
 
         // Reference bytes: an unbounded in-memory writer.
